@@ -449,8 +449,8 @@ func C12() *check.Property {
 	return &check.Property{
 		ID:       "C12",
 		Title:    "Pipelines are reusable recipes: subscriptions and operator values independent",
-		Patterns: cat(CorePatterns, PluginPkgs, []string{PromPkg}, RatePkgs),
-		Scope:    []string{ro},
+		Patterns: cat(CorePatterns, PluginPkgs, IOPluginPkgs, []string{PromPkg}, RatePkgs),
+		Scope:    append([]string{ro}, IOPluginPkgs...),
 		Rules:    []check.Rule{ruleStateLevel(), ruleLazySource(), ruleSubscribeMultiplicity(), ruleFreshPerApplication(), ruleObservableParamUsed(), ruleBuildTimeState()},
 		Explanation: "Static discipline check (AST + types). Operators are closures at three levels: constructor (once per operator value), application literal func(source) (once per pipeline) " +
 			"and subscribe closure (once per subscription). STATE-LEVEL proves that no write inside a deeper level targets a variable declared at an outer level, so every subscription starts from fresh state and " +
